@@ -83,6 +83,7 @@ func runGenericJob(t *testing.T, j *Job, r *evid.Run, body Body, oracle func(x *
 	}
 	root := e.Run(j.Prefix, nil, j.Bound, j.Lo, j.Hi, j.SkipRoot)
 	out.RootNOpts = root.NOpts
+	out.Roles = dedup(root.Roles)
 	if rootOut != nil && root.Res != nil {
 		out.RootOut, out.Info = rootOut(root)
 	}
